@@ -72,7 +72,7 @@ def case_strategy():
     from hypothesis import strategies as st
     tb = st.sampled_from(TBS)
     return st.fixed_dictionaries({'tb': tb.map(list), 'signed': st.sampled_from(['no', 'issuer', 'issuer', 'foreign', 'peer']), 'want_signed': st.sampled_from([False, True, False, True, 'only-valid-cert']), 'mut': st.sampled_from(MUTS),
-                                  'dmode': st.sampled_from(DMODES), 'tz': st.sampled_from([None, None, None, None, 'AAA+12', 'BBB-13']), 'sender': st.sampled_from(['std', 'std', 'std', 'second', 'second', 'enc-only', 'no-key']), 'offset': st.sampled_from(OFFSETS), 'near': st.integers(0, 9),
+                                  'dmode': st.sampled_from(DMODES), 'tz': st.sampled_from([None, None, None, None, 'AAA+12', 'BBB-13']), 'sender': st.sampled_from(['std', 'std', 'std', 'second', 'second', 'enc-only', 'no-key']), 'offset': st.sampled_from(OFFSETS), 'near': st.integers(0, 9), 'ii_zone': st.sampled_from([None, None, None, None, '+14:00', '-12:00', '+05:30']),
                                   'attr': st.sampled_from(['ID', 'IssueInstant', 'Version']), 'garble': st.tuples(st.sampled_from(['truncate', 'flip', 'prefix', 'not-b64', 'empty']), st.integers(1, 200)).map(list),
                                   'script': xmlmut.script_strategy(3), 'alg': st.sampled_from(['sha1', 'sha256', 'sha512']),
                                   'edit': st.sampled_from(['ID', 'Destination', 'AssertionConsumerServiceURL', 'Issuer', 'NameID'])})
@@ -112,6 +112,11 @@ def _run(case):
     fields = {'id': 'id-q-1', 'issue_instant': build.ts(NOW), 'destination': own, 'issuer': sender}
     dmode = case.get('dmode', 'own')
     fields['issue_instant'] = build.ts(NOW + case['offset'])
+    if case.get('ii_zone'):
+        # the same instant written with a numeric zone offset instead of Z (local digits = instant + offset)
+        z = case['ii_zone']
+        secs = (1 if z[0] == '+' else -1) * (int(z[1:3]) * 3600 + int(z[4:6]) * 60)
+        fields['issue_instant'] = build.ts(NOW + case['offset'] + secs)[:-1] + z
     if dmode == 'foreign':
         fields['destination'] = 'https://evil.example.net/endpoint'
     elif dmode == 'near':
@@ -196,7 +201,7 @@ def _run(case):
         req, err = None, e
     handed = req is not None and getattr(req, 'message', None) is not None
     want = bool(case['want_signed']) and typ != 'sp-logout'
-    pristine = (typ, binding) in ENDPOINTS and who == 'std' and mut == 'none' and dmode in ('own', 'absent') and abs(case['offset']) <= 86400 - 2 and (case['signed'] in ('no', 'issuer')) and not (want and case['signed'] == 'no')
+    pristine = (typ, binding) in ENDPOINTS and not case.get('ii_zone') and who == 'std' and mut == 'none' and dmode in ('own', 'absent') and abs(case['offset']) <= 86400 - 2 and (case['signed'] in ('no', 'issuer')) and not (want and case['signed'] == 'no')
     if binding == 'soap' and case['signed'] != 'no':
         pristine = False    # the SOAP decoder re-serialises the body; signatures over foreign prefixes do not survive it (transport limitation, see C08 known finding)
     mlabel = mut if mut not in ('script', 'xsw') else mut + ':' + '+'.join(sorted(set(l.split('|')[0] for l in labels)) or ['noop'])
